@@ -34,6 +34,13 @@
 //! other commitment; then everything is buried.  Oracles: nothing is failed by the reload while the closing transaction has fewer
 //! than ANTI_REORG_DELAY confirmations; no PaymentFailed / upstream fail-back for an HTLC that is a live output of the buried
 //! commitment; dust / absent HTLCs have failed once it is buried.  VERIF_C10_CHAIN="fwd:processed:closer_t:depth:lag:reorg".
+//! Event re-delivery worlds (`run_evt_world`): outbound payments over a channel closed on chain whose HTLC timeouts are buried; the event
+//! handler accepts a PREFIX of the pending events and returns Err(ReplayEvent) for the next; crash; restart from the manager written before the
+//! close / after it / after the failure was queued / after the partial handling (optionally crashing twice).  Op line
+//!   evlife (close | timeout | h<k> | persist | crash)* -> part=0/1 queue=<P|F[*],..> resolved=0/1 handledT=0/1      (Restart.erun, single payment)
+//! Oracle: a PaymentFailed the handler never accepted before the crash is delivered after the restart.  VERIF_C10_EVT="n_pay:closer_t:k:mgr_pt:second".
+//! KF-C10-6: oracle in the world loop (the read fails back an HTLC that the monitor copy of a channel closed as OutdatedChannelManager still lists
+//! as pending) and `kf6_probe`, the end-to-end reproduction (the downstream peer claims on chain after the upstream HTLC was failed).
 //! After the restart(s) the application retries the claim / fail-back decisions it took before the crash (as
 //! the claim_funds documentation requires), peers are reconnected and everything is delivered until quiet.
 //!
@@ -51,7 +58,7 @@
 //!     node's Σ value_to_self did not decrease (net of what it paid / was paid itself), no protocol error was emitted, and
 //!     every channel of t with nothing blocked or in flight is in sync with its monitor (same update id and numbers).
 //! Known findings (known_findings.txt) are recognised by an implementation-side pattern on the world and tagged
-//! KF-C10-1 / -2 / -3 / -4 (the last one on the non-production reload path only); the same symptom outside the pattern is
+//! KF-C10-1 / -2 / -3 / -5 / -6 (OBS-C10-4 on the non-production reload path only); the same symptom outside the pattern is
 //! reported untagged.  VERIF_C10_WORLD="sc:p:q:monpts" VERIF_TRACE=2 replays one world.
 use ldk_verif_harness::common::*;
 use ldk_verif_harness::sim::*;
@@ -215,6 +222,22 @@ fn run_scenario(seed: u64, topo: usize, flavor: u64, t: usize, async_t: bool, n_
 			if let Ok(p) = sc.net.send(&[2, 3], &[2], 100_000 + rng.below(5_000_000), 70) { sc.point(format!("send#{} [2, 3]", p)); }
 			let pend = sc.net.pending_updates(t, 2);
 			for id in pend { if !sc.full() { sc.net.complete(t, 2, id); sc.point(format!("complete c2 {}", id)); } }
+		}
+	}
+	if topo == 0 && flavor == 3 && t == 1 {
+		// scripted prefix (line, t forwards): a payment 0→1→2 is forwarded, becomes claimable at node 2 and is CLAIMED; every message of the
+		// fulfil path is a crash point, so for a while t's monitor of c1 holds the preimage of a forwarded HTLC (pending_claims_to_replay)
+		let amt = 1_000_000 + rng.below(20_000_000);
+		if let Ok(p) = sc.net.send(&[0, 1, 2], &[0, 1], amt, 70) {
+			sc.point(format!("send#{} [0, 1, 2] {}", p, amt));
+			sc.drain(None, true);
+			if !sc.full() { sc.net.process_events(2); sc.point("events 2".into()); }
+			let h = sc.net.pays[p].hash;
+			if !sc.full() && sc.net.claimable[2].iter().any(|c| c.0 == h) {
+				sc.net.claimable[2].retain(|c| c.0 != h);
+				sc.decided.push((p, true)); sc.net.claim(p); sc.point(format!("claim#{}", p));
+				sc.drain(None, true);
+			}
 		}
 	}
 	let (rts, n_main) = routes(topo);
@@ -440,7 +463,7 @@ fn main() {
 	let n_scen = if std::env::var("VERIF_C10_ONLY_CHAIN").is_ok() { 0 } else { n_scen };
 	let worlds_per_scen = if args.thorough { 200 } else { 70 }; // a leaked Net per world: memory bounds the thorough tier
 	let mut n_worlds = 0u64; let mut n_adm = 0u64; let mut n_closed = 0u64; let mut n_replay = 0u64; let mut n_second = 0u64; let mut n_settled = 0u64;
-	let mut nondet = 0u64; let mut late_panics = 0u64; let mut n_recon = 0u64;
+	let mut nondet = 0u64; let mut late_panics = 0u64; let mut n_recon = 0u64; let n_pre_pts = 0u64; let mut n_pre_kept = 0u64;
 	let mut kf_counts: BTreeMap<String, u64> = BTreeMap::new();
 	let mut anoms: Vec<String> = vec![]; let mut persister_switch = 0u64;
 	for sc in 0..n_scen {
@@ -448,7 +471,7 @@ fn main() {
 		// even scenarios: line of 3 nodes; odd scenarios: 4 nodes, two inbound channels into node 2 (colliding HTLC ids)
 		let topo = sc % 2;
 		let t = if topo == 0 { match (sc / 2) % 4 { 0 | 1 => 1, 2 => 0, _ => 2 } } else if (sc / 2) % 5 == 4 { 0 } else { 2 };
-		let flavor = if topo == 1 && t == 2 { [1u64, 2, 0, 1, 2][(sc / 2) % 5] } else { 0 };
+		let flavor = if topo == 1 && t == 2 { [1u64, 2, 0, 1, 2][(sc / 2) % 5] } else if topo == 0 && t == 1 && sc >= 8 && (sc / 2) % 4 == 0 { 3 } else { 0 };
 		let async_t = sc % 5 != 4;
 		let nn = if topo == 0 { 3 } else { 4 };
 		let n_ops = if args.thorough { 50 + rng.below(90) as usize } else { 40 + rng.below(50) as usize };
@@ -528,7 +551,7 @@ fn main() {
 			for w in worlds.drain(..) {
 				let b = bucket(&w); let k = key(&w);
 				let n = per_key.entry(k).or_insert(0);
-				if taken[b] < quota[b] && *n < (if b >= 4 { 4 } else { 2 }) { taken[b] += 1; *n += 1; keep.push(w); } else { rest.push(w); }
+				if taken[b] < quota[b] && *n < (if b >= 4 { 4 } else { 2 }) { taken[b] += 1; *n += 1; if b == 6 { n_pre_kept += 1; } keep.push(w); } else { rest.push(w); }
 			}
 			for w in rest { if keep.len() >= worlds_per_scen { break; } keep.push(w); }
 			worlds = keep;
@@ -884,6 +907,7 @@ fn main() {
 	}
 	rec.notes.insert("known_findings_hit".into(), format!("{:?} (every occurrence counted; at most 4 per finding are listed)", kf_counts));
 	rec.notes.insert("reconstruction".into(), format!("{} admissible production-path worlds read a second time without side effects: pending_claims_to_replay / failed_htlcs (hook STARTUP_DECISIONS), pending_outbound_payments, generated PaymentSent / PaymentFailed and the background events of every resumed channel compared with Restart.claims / fails / paysAfter / bgEvents before any message is exchanged", n_recon));
+	rec.notes.insert("preimage_worlds".into(), format!("{} worlds kept by the directed stratum \"a monitor copy holds the preimage of a forwarded HTLC\" (scripted claim prefix of the line scenarios with flavor 3){}", n_pre_kept, if n_pre_pts > 0 { "" } else { "" }));
 	rec.notes.insert("worlds".into(), format!("worlds={} admissible={} with_replay={} with_closed_channel={} second_crash={} settled={} discarded_nondeterministic_rerun={} discarded_stale_monitor_panic_after_read={}", n_worlds, n_adm, n_replay, n_closed, n_second, n_settled, nondet, late_panics));
 	rec.finish();
 }
